@@ -295,8 +295,11 @@ add("accept-reduce-only2", "%start S\n%%\nS: S 'y' | S B 'x' | ;\nB: ;\n", tags=
 add("nullable-units", "%start S\n%%\nS: A 'a' | 'b' A;\nA: B;\nB: Cc;\nCc: ;\n", tags=["lr1", "nullable"], inputs=["a", "b", "b a", ""])
 add("nullable-units2", "%start S\n%%\nS: D A 'x';\nD: 'd';\nA: B B;\nB: Cc Cc;\nCc: E;\nE: ;\n", tags=["lr1", "nullable"], inputs=["d x", "d", "x"])
 # the last token of the production has no precedence, an earlier one has: no production precedence
-add("prec-last-token", "%start E\n%right '?'\n%%\nE: E '?' E ':' E | 'n';\n", tags=["prec", "conflicts"], inputs=["n ? n : n", "n ? n : n ? n : n", "n ? n ? n : n : n"])
+add("prec-last-token-right", "%start E\n%right '?'\n%%\nE: E '?' E ':' E | 'n';\n", tags=["prec", "conflicts"], inputs=["n ? n : n", "n ? n : n ? n : n", "n ? n ? n : n : n"])
 add("prec-last-token2", "%start E\n%left '+'\n%left '*'\n%%\nE: E '+' E 'k' | E '*' E | 'n' | E 'k';\n", tags=["prec", "conflicts"], inputs=["n + n k", "n * n + n k", "n k k"])
+
+
+assert len(set(c["id"] for c in CAT)) == len(CAT), "duplicate catalogue ids"
 
 
 def select(tags=None, exclude=()):
